@@ -97,6 +97,8 @@ rewrite fsum_map big_distrr /=; apply: eq_big_seq => i; rewrite mem_iota add0n =
 by rewrite memoE // hB // !mulrA.
 Qed.
 
+Opaque bcol.
+
 (* ---------------------------------------------------------------- the table of backward columns *)
 Local Notation bstateK := (bstate K).
 Local Notation bstepK := (@bstep K 0 1 +%R *%R divK eq0K P ccs).
@@ -179,6 +181,341 @@ split=> //.
 - by move=> h0 /=; rewrite h0 nth_set_nth /= eqxx.
 - move=> d hd /=; case: ifP => _; last exact: hmono1.
   by rewrite nth_set_nth /=; case: eqP => // _; apply: hmono1.
+Qed.
+
+Lemma bstep_err c st : err (bstepK c st) = false -> err st = false.
+Proof.
+rewrite /bstep; case: ifP => // _.
+case: (if _ then _ else _) => [prevB|] //=.
+by move/negbT; rewrite negb_or => /andP[/negbTE].
+Qed.
+
+Lemma bsteps_err l st : err (foldr (fun i st => bstepK i st) st l) = false -> err st = false.
+Proof. by elim: l => //= i l IH /bstep_err. Qed.
+
+(* a run of backward steps for the columns lo + d - 1, ..., lo *)
+Lemma bsteps_ok d lo st :
+  (lo + d <= n)%N -> Bt_ok st ->
+  ((0 < d)%N -> (lo + d == n)%N || isSome (nth None (bt st) (lo + d)%N.-1)) ->
+  err (foldr (fun i st => bstepK i st) st (iota lo d)) = false ->
+  let st' := foldr (fun i st => bstepK i st) st (iota lo d) in
+  [/\ Bt_ok st', err st = false,
+      (0 < d)%N -> (0 < lo)%N -> isSome (nth None (bt st') lo.-1)
+    & forall e, isSome (nth None (bt st) e) -> isSome (nth None (bt st') e)].
+Proof.
+elim: d lo st => [|d IH] lo st hle hok hav /= herr; first by split.
+have hin := bstep_err herr.
+have hle' : (lo.+1 + d <= n)%N by rewrite addSnnS.
+have hav' : (0 < d)%N -> (lo.+1 + d == n)%N || isSome (nth None (bt st) (lo.+1 + d)%N.-1).
+  by move=> _; rewrite addSnnS; apply: hav.
+case: (IH lo.+1 st hle' hok hav' hin) => hok1 he1 hcr1 hmono1.
+have hlo : (lo < n)%N by apply: leq_trans hle; rewrite addnS ltnS leq_addr.
+have hav1 : (lo.+1 == n) ||
+    isSome (nth None (bt (foldr (fun i st => bstepK i st) st (iota lo.+1 d))) lo).
+  case: d {IH hle hle' hav' herr hin hok1 he1 hmono1} hav hcr1 => [|d] hav hcr1 /=.
+    by move: (hav isT); rewrite addn1.
+  by rewrite (hcr1 isT isT) orbT.
+case: (bstep_ok hlo hok1 hav1 herr) => hok2 _ hcr2 hmono2.
+split=> //; try by move=> _; apply: hcr2.
+by move=> e he; apply: hmono2; apply: hmono1.
+Qed.
+
+(* ---------------------------------------------------------------- the backward pass *)
+Definition avail (k c : nat) (st : bstateK) : Prop :=
+  forall e, (c <= e)%N -> (e.+1 < n)%N -> (k <= 1)%N || (e %% k == 0)%N -> isSome (nth None (bt st) e).
+
+Local Notation bpass_step k :=
+  (fun c (st : bstateK) => let st' := bstepK c st in
+     if (1 < k)%N && (c.+1 < n)%N && (c.+1 %% k != 0)%N then bdrop c.+1 st' else st').
+
+Lemma bpass_steps_ok k d lo st :
+  (lo + d = n)%N -> Bt_ok st ->
+  err (foldr (bpass_step k) st (iota lo d)) = false ->
+  let st' := foldr (bpass_step k) st (iota lo d) in
+  [/\ Bt_ok st', err st = false,
+      (0 < d)%N -> (0 < lo)%N -> isSome (nth None (bt st') lo.-1)
+    & (0 < d)%N -> avail k lo st'].
+Proof.
+elim: d lo st => [|d IH] lo st hle hok /= herr; first by split.
+set inner := foldr (bpass_step k) st (iota lo.+1 d) in herr *.
+have hin : err inner = false.
+  by move: herr; case: ifP => _ /=; move/bstep_err.
+have hle' : (lo.+1 + d = n)%N by rewrite addSnnS.
+case: (IH lo.+1 st hle' hok hin) => hok1 he1 hcr1 hav1; rewrite -/inner in hok1 hcr1 hav1.
+have hlo : (lo < n)%N by rewrite -hle addnS ltnS leq_addr.
+have havl : (lo.+1 == n) || isSome (nth None (bt inner) lo).
+  case: (posnP d) => [d0|dpos]; first by rewrite -hle d0 addn1 eqxx.
+  by rewrite (hcr1 dpos isT) orbT.
+have herr2 : err (bstepK lo inner) = false.
+  by move: herr; case: ifP.
+case: (bstep_ok hlo hok1 havl herr2) => hok2 _ hcr2 hmono2.
+have hav2 : avail k lo (bstepK lo inner) /\
+    (forall e, (lo.+1 < e)%N -> isSome (nth None (bt inner) e) -> isSome (nth None (bt (bstepK lo inner)) e)).
+  split=> [e hloe he hk|e _]; last exact: hmono2.
+  move: hloe he hk; rewrite leq_eqVlt => /orP[/eqP<-|hlt] he hk.
+    have : (lo.+1 == n) = false by apply/negbTE; rewrite neq_ltn he.
+    by move=> h; move: havl; rewrite h /= => /hmono2.
+  case: (posnP d) => [d0|dpos].
+    by move: he; rewrite -hle d0 addn1 ltnS => he'; move: (ltn_trans hlt he'); rewrite ltnn.
+  by apply: hmono2; apply: (hav1 dpos).
+case: hav2 => hav2 _.
+case hcond: ((1 < k)%N && (lo.+1 < n)%N && (lo.+1 %% k != 0)%N); last by split.
+case/andP: hcond => /andP[hk1 hlo1] hmod.
+split=> //=.
+- case: hok2 => hg hs; split=> //=; exact: bt_good_setN.
+- move=> _ h0; rewrite nth_set_nth /=; case: eqP => [e|_]; last exact: hcr2.
+  by move: (leq_pred lo); rewrite e ltnn.
+- move=> _ e hloe he hk; rewrite nth_set_nth /=; case: eqP => [ee|_]; last exact: hav2.
+  by move: hk; rewrite ee leqNgt hk1 /= (negbTE hmod).
+Qed.
+
+Lemma bpass_ok k :
+  let st0 := BState (nseq n None) (nseq n (0 - 1 : K)) false in
+  err (bpassK k st0) = false ->
+  Bt_ok (bpassK k st0) /\ avail k 0 (bpassK k st0).
+Proof.
+move=> st0; rewrite /bpass foldl_rev -/n => herr.
+have hok0 : Bt_ok st0.
+  split; last by rewrite /= size_nseq.
+  split; first by rewrite /= size_nseq.
+  by move=> c t _ /=; rewrite nth_nseq; case: ifP.
+case: (@bpass_steps_ok k n 0 st0 (add0n n) hok0 herr) => hok _ _ hav; split=> //.
+case: (posnP n) => [n0|npos]; last exact: hav.
+by move=> e _; rewrite n0.
+Qed.
+
+(* ---------------------------------------------------------------- making a backward column available *)
+Lemma bensure_err k c st : err (bensureK k c st) = false -> err st = false.
+Proof.
+rewrite /bensure; case: ifP => // _; case: (nth None (bt st) c) => // .
+rewrite foldl_rev; case: (nth None _ c) => [t|] //=.
+by move/negbT; rewrite negb_or => /andP[/negbTE /bsteps_err].
+Qed.
+
+Lemma bensure_ok k c st :
+  (0 < k)%N -> (c.+1 < n)%N -> Bt_ok st -> avail k c st ->
+  err (bensureK k c st) = false ->
+  [/\ Bt_ok (bensureK k c st), isSome (nth None (bt (bensureK k c st)) c)
+    & forall e, isSome (nth None (bt st) e) -> isSome (nth None (bt (bensureK k c st)) e)].
+Proof.
+move=> hk hc hok hav; rewrite /bensure hc.
+case hbt: (nth None (bt st) c) => [t|]; first by move=> _; split=> //; rewrite hbt.
+rewrite foldl_rev.
+set m := ((c + k) %/ k * k)%N; set next := minn m n.-1.
+have hcm : (c < m)%N.
+  have := divn_eq (c + k) k; rewrite -/m => e.
+  have hr : ((c + k) %% k < k)%N by rewrite ltn_pmod.
+  by rewrite -(ltn_add2r k) {1}e ltn_add2l.
+have hcn : (c < n.-1)%N by rewrite -ltnS prednK // (leq_trans _ hc).
+have hcnext : (c < next)%N by rewrite /next leq_min hcm hcn.
+have hnext : (next.+1 <= n)%N.
+  by rewrite -[X in (_ <= X)%N](@prednK n) ?ltnS ?geq_minr // (leq_trans _ hc).
+have hd : (c.+1 + (next - c) = next.+1)%N by rewrite addSn subnKC // ltnW.
+set st' := foldr _ st _.
+move=> herr.
+have herr' : err st' = false.
+  move: herr; case: (nth None (bt st') c) => [t|] //=.
+  by move/negbT; rewrite negb_or => /andP[/negbTE].
+have hav' : (0 < next - c)%N ->
+    (c.+1 + (next - c) == n)%N || isSome (nth None (bt st) (c.+1 + (next - c))%N.-1).
+  move=> _; rewrite hd /=.
+  rewrite /next; case: (leqP m n.-1) => hmn.
+    case: (ltngtP m n.-1) hmn => // [hlt _|-> _]; last first.
+      by rewrite prednK ?eqxx // (leq_trans _ hc).
+    rewrite hav ?orbT //; first exact: ltnW.
+      by rewrite -ltn_predRL.
+    by rewrite /m modnMl eqxx orbT.
+  by rewrite prednK ?eqxx // (leq_trans _ hc).
+have hle : (c.+1 + (next - c) <= n)%N by rewrite hd.
+case: (@bsteps_ok (next - c) c.+1 st hle hok hav' herr') => hok1 _ hcr1 hmono1.
+rewrite -/st' in hok1 hcr1 hmono1.
+have hsome : isSome (nth None (bt st') c) by apply: hcr1 => //; rewrite subn_gt0.
+move: herr; case hbt': (nth None (bt st') c) hsome => [t|] // _ /=.
+move/negbT; rewrite negb_or => /andP[_ hs].
+split=> /=.
+- case: hok1 => hg hsz; split=> //=.
+  apply: bt_good_set => //; first exact: ltnW.
+  move=> _; apply: tscale_good => //.
+  by case: hg => _ /(_ c t hc hbt').
+- by rewrite nth_set_nth /= eqxx.
+- by move=> e /hmono1 he; rewrite nth_set_nth /=; case: eqP.
+Qed.
+
+(* ---------------------------------------------------------------- one forward column *)
+Definition phi_g (ind g : nat) : nat -> nat -> bool := fun i a => genof i a ind == g.
+Definition post (c ind g : nat) : K := Nm c (phi_g ind g) / Nm c (fun _ _ => true).
+
+Lemma fcol_spec c prevF B s mu lam :
+  (c < n)%N -> s != 0 -> mu != 0 -> lam != 0 ->
+  (forall x i, size x = cc_k (cc_ c) -> (i < tn)%N ->
+     (if c == 0%N then 1 else \sum_(j <- ts) prevF (take (cc_bpw (cc_ c)) x) j * cc_T (cc_ c) j i)
+     = mu * prex (rev (take c ccs)) (fwdx (rev (take c ccs))) (cc_ c) x i) ->
+  (forall x i, size x = cc_k (cc_ c) -> (i < tn)%N ->
+     (if c.+1 == n then 1 else B (mask (cc_fmask (cc_ c)) x) i)
+     = lam * bwdx (drop c.+1 ccs) (mask (cc_fmask (cc_ c)) x) i) ->
+  let r := fcolK (cc_ c) (c == 0%N) (c.+1 == n) prevF B s in
+  r.2 = false ->
+  (forall sigma i, size sigma = cc_fw (cc_ c) -> (i < tn)%N ->
+     r.1.1 sigma i = (mu / s) * fwdx (rev (take c.+1 ccs)) sigma i) /\
+  (forall ind g, (ind < p_nind P)%N -> (g < 3)%N ->
+     nth 0 (nth [::] r.1.2 ind) g = post c ind g).
+Proof.
+move=> hc hs hmu hlam hF hB.
+rewrite /fcol /= -/tn -/na -/ts.
+set sumprev := memoK (cc_k (cc_ c)) tn _.
+set fprob := memo3 _ _ _ _ _.
+set M := memo_nat2 _ _ _ _.
+have hsp : forall x i, size x = cc_k (cc_ c) -> (i < tn)%N ->
+    sumprev x i = mu / s * prex (rev (take c ccs)) (fwdx (rev (take c ccs))) (cc_ c) x i.
+  move=> x i hx hi; rewrite /sumprev memoE // mulrAC -hF //.
+  by case: ifP => _ //; rewrite fsum_map.
+pose Q i a := \sum_(x <- bits (cc_k (cc_ c)))
+     prex (rev (take c ccs)) (fwdx (rev (take c ccs))) (cc_ c) x i * cc_W (cc_ c) x i a
+     * bwdx (drop c.+1 ccs) (mask (cc_fmask (cc_ c)) x) i.
+have hM : forall i a, (i < tn)%N -> (a < na)%N -> M i a = (mu / s * lam) * Q i a.
+  move=> i a hi ha; rewrite /M memo_nat2E // fsum_map bitvecsE /Q big_distrr /=.
+  apply: eq_big_seq => x; rewrite mem_bitsE => /eqP hx.
+  rewrite /fprob memo3E // hsp // hB //.
+  rewrite -!mulrA; congr (_ * _); congr (_ * _).
+  by rewrite [RHS]mulrCA; congr (_ * _); rewrite mulrCA.
+have hkap : mu / s * lam != 0 by rewrite !mulf_neq0 ?invr_eq0.
+have hsum : forall phi : nat -> nat -> bool,
+    fsum 0 +%R [seq fsum 0 +%R [seq M i a | a <- iota 0 na & phi i a] | i <- ts]
+    = (mu / s * lam) * Nm c phi.
+  move=> phi; rewrite fsum_map /Nm big_distrr /=.
+  apply: eq_big_seq => i; rewrite mem_iota add0n => /andP[_ hi].
+  rewrite fsum_mapf big_distrr /=.
+  apply: eq_sum_seq_cond => a; rewrite mem_iota add0n => /andP[_ ha] _.
+  by rewrite hM.
+move=> hnorm; split.
+- move=> sigma i hsg hi; rewrite memoE // fsum_mapf bitvecsE.
+  rewrite (take_nth dccK hc) rev_rcons /= big_distrr /=.
+  apply: eq_sum_seq_cond => x; rewrite mem_bitsE => /eqP hx _.
+  by rewrite hsp // mulrA.
+- move=> ind g hind hg.
+  have hden : fsum 0 +%R [seq fsum 0 +%R [seq M i a | a <- iota 0 na] | i <- ts]
+          = (mu / s * lam) * Nm c (fun _ _ => true).
+    by rewrite -hsum; congr fsum; apply: eq_map => i; rewrite filter_predT.
+  rewrite (nth_map 0%N) ?size_iota // nth_iota // add0n.
+  by case: g hg => [|[|[|g]]] //= _;
+     rewrite hden (hsum (phi_g ind _)) /post -mulf_div divff // mul1r.
+Qed.
+
+Opaque fcol.
+
+(* ---------------------------------------------------------------- the forward pass *)
+Local Notation fstateK := (fstate K).
+Definition out_at (o : seq (seq (seq K))) (c ind g : nat) : K := nth 0 (nth [::] (nth [::] o c) ind) g.
+
+Definition Inv_f (k c : nat) (fs : fstateK) : Prop :=
+  [/\ Bt_ok (f_b fs),
+      (0 < c)%N -> exists2 mu : K, mu != 0 &
+         forall sigma j, size sigma = cc_fw (cc_ c.-1) -> (j < tn)%N ->
+           f_prev fs sigma j = mu * fwdx (rev (take c ccs)) sigma j,
+      avail k c (f_b fs),
+      size (f_out fs) = c
+    & forall c' ind g, (c' < c)%N -> (ind < p_nind P)%N -> (g < 3)%N ->
+        out_at (f_out fs) c' ind g = post c' ind g].
+
+Lemma fstep_err k fs c : err (f_b (fstepK k fs c)) = false -> err (f_b fs) = false.
+Proof.
+rewrite /fstep; case: (if _ then _ else _) => [B|] //=.
+by move/negbT; rewrite !negb_or => /andP[/andP[/negbTE /bensure_err]].
+Qed.
+
+Lemma fsteps_err k l fs : err (f_b (foldl (fstepK k) fs l)) = false -> err (f_b fs) = false.
+Proof. by elim: l fs => //= c l IH fs /IH /fstep_err. Qed.
+
+Lemma fstep_ok k c fs :
+  (0 < k)%N -> (c < n)%N -> Inv_f k c fs ->
+  err (f_b (fstepK k fs c)) = false -> Inv_f k c.+1 (fstepK k fs c).
+Proof.
+move=> hk hc [hok hprev hav hsz hout] herr.
+have herr1 : err (bensureK k c (f_b fs)) = false.
+  move: herr; rewrite /fstep; case: (if _ then _ else _) => [B|] //=.
+  by move/negbT; rewrite !negb_or => /andP[/andP[/negbTE]].
+set st := bensureK k c (f_b fs) in herr1.
+have [hok1 hsome1 hmono1] : [/\ Bt_ok st, (c.+1 < n)%N -> isSome (nth None (bt st) c)
+     & forall e, isSome (nth None (bt (f_b fs)) e) -> isSome (nth None (bt st) e)].
+  case hc1: (c.+1 < n)%N.
+    by case: (bensure_ok hk hc1 hok hav herr1).
+  by rewrite /st /bensure hc1; split.
+have [B hselB [lam hlam hB]] : exists2 B,
+    (if c.+1 == n then Some (fun _ _ => 1) else nth None (bt st) c) = Some B &
+    (exists2 lam : K, lam != 0 & forall x i, size x = cc_k (cc_ c) -> (i < tn)%N ->
+       (if c.+1 == n then 1 else B (mask (cc_fmask (cc_ c)) x) i)
+        = lam * bwdx (drop c.+1 ccs) (mask (cc_fmask (cc_ c)) x) i).
+  case hl: (c.+1 == n).
+    exists (fun _ _ => 1) => //; exists 1; first exact: oner_neq0.
+    by move=> x i _ _; rewrite drop_oversize ?mul1r // -/n -(eqP hl).
+  have hc1 : (c.+1 < n)%N by rewrite ltn_neqAle hl hc.
+  case hbt: (nth None (bt st) c) (hsome1 hc1) => [t|] // _.
+  exists t => //.
+  case: hok1 => [[_ hg] _]; case: (hg c t hc1 hbt) => lam hlam ht; exists lam => // x i hx hi.
+  by rewrite ht // size_fproj.
+have [mu hmu hF] : exists2 mu : K, mu != 0 &
+    forall x i, size x = cc_k (cc_ c) -> (i < tn)%N ->
+     (if c == 0%N then 1 else \sum_(j <- ts) f_prev fs (take (cc_bpw (cc_ c)) x) j * cc_T (cc_ c) j i)
+     = mu * prex (rev (take c ccs)) (fwdx (rev (take c ccs))) (cc_ c) x i.
+  case: (posnP c) => [c0|cpos].
+    by exists 1; [exact: oner_neq0 | move=> x i _ _; rewrite c0 /= take0 /= mul1r].
+  case: (hprev cpos) => mu hmu hp; exists mu => // x i hx hi.
+  have -> : prex (rev (take c ccs)) (fwdx (rev (take c ccs))) (cc_ c) x i
+          = \sum_(j <- ts) fwdx (rev (take c ccs)) (take (cc_bpw (cc_ c)) x) j * cc_T (cc_ c) j i.
+    rewrite /prex; case e: (rev (take c ccs)) => [|a l] //.
+    move/(congr1 size): e; rewrite size_rev size_take hc /= => e0.
+    by move: cpos; rewrite e0.
+  rewrite big_distrr /=; apply: eq_big_seq => j; rewrite mem_iota add0n => /andP[_ hj].
+  have hc' : (c.-1 < n)%N by apply: leq_ltn_trans hc; exact: leq_pred.
+  have hw : size (take (cc_bpw (cc_ c)) x) = cc_fw (cc_ c.-1).
+    case: (shape hc') => _ _; rewrite prednK // => /(_ hc) ->.
+    exact: size_bproj.
+  by rewrite hp ?mulrA.
+move: herr; rewrite /fstep -/st hselB /=.
+set s := nth 0 (sc st) c.
+move/negbT; rewrite !negb_or => /andP[/andP[_ hs] hr]; move/negbTE: hr => hr.
+case: (fcol_spec hc hs hmu hlam hF hB hr) => hnewF hlik.
+split=> /=.
+- case: hok1 => hg hss; split=> //=; exact: bt_good_setN.
+- move=> _; exists (mu / s); first by rewrite mulf_neq0 ?invr_eq0.
+  exact: hnewF.
+- move=> e hce he hke /=; rewrite nth_set_nth /=; case: eqP => [ee|_].
+    by move: hce; rewrite ee ltnn.
+  by apply: hmono1; apply: hav => //; apply: ltnW.
+- by rewrite size_rcons hsz.
+- move=> c' ind g; rewrite ltnS leq_eqVlt => /orP[/eqP->|hlt] hind hg.
+    by rewrite /out_at nth_rcons hsz ltnn eqxx; apply: hlik.
+  by rewrite /out_at nth_rcons hsz hlt; apply: hout.
+Qed.
+
+Lemma isqrt_gt0 m : (0 < m)%N -> (0 < isqrt m)%N.
+Proof. by case: m. Qed.
+
+Local Notation runK := (@fb_run_state K 0 1 +%R subK *%R divK eq0K P genof ccs).
+
+Theorem run_ok :
+  err (f_b runK) = false ->
+  size (f_out runK) = n /\
+  forall c ind g, (c < n)%N -> (ind < p_nind P)%N -> (g < 3)%N ->
+    out_at (f_out runK) c ind g = post c ind g.
+Proof.
+rewrite /fb_run_state -/n.
+set k := isqrt n; set st0 := BState _ _ _; set fs0 := FState _ _ _.
+move=> herr.
+case: (posnP n) => [n0|npos].
+  by move: herr; rewrite n0 /=; split=> // c ind g.
+have hk : (0 < k)%N by apply: isqrt_gt0.
+have herr0 : err (bpassK k st0) = false by move/fsteps_err: herr.
+have hinv0 : Inv_f k 0 fs0.
+  by case: (bpass_ok herr0) => hok hav; split.
+have hall : forall c, (c <= n)%N -> Inv_f k c (foldl (fstepK k) fs0 (iota 0 c)).
+  elim=> [|c IH] hc //.
+  have e : iota 0 n = iota 0 c.+1 ++ iota c.+1 (n - c.+1) by rewrite -iotaD subnKC.
+  have herrc : err (f_b (foldl (fstepK k) fs0 (iota 0 c.+1))) = false.
+    by move: herr; rewrite e foldl_cat => /fsteps_err.
+  move: herrc; rewrite -addn1 iotaD foldl_cat /= add0n => herrc.
+  by rewrite addn1; apply: fstep_ok => //; apply: IH; apply: ltnW.
+case: (hall n (leqnn n)) => _ _ _ hsz hout; split=> //.
 Qed.
 
 End Run.
